@@ -46,7 +46,7 @@ def queries():
     # (RL, ML, EXPL, BLK, tier)
     cases = [(48, 20, 1, 16, "quick"), (32, 16, 0, 16, "quick"), (64, 32, 1, 16, "quick"),
              (32, 20, 0, 8, "quick"), (40, 20, 1, 8, "quick"),
-             (64, 20, 1, 16, "thorough"), (64, 48, 0, 16, "thorough"), (80, 20, 1, 16, "thorough"), (48, 16, 0, 8, "thorough")]
+             (64, 20, 1, 16, "thorough"), (64, 48, 0, 16, "thorough"), (96, 48, 0, 16, "thorough"), (80, 20, 1, 16, "thorough"), (48, 16, 0, 8, "thorough")]
     for (rl, ml, ex, blk, tier) in cases:
         qs.append(Q("cbc-dec-RL%d-ML%d-%s-B%d" % (rl, ml, "expl" if ex else "impl", blk), "C02_cbc.c",
                     defs=["-DRL=%d" % rl, "-DML=%d" % ml, "-DEXPL=%d" % ex, "-DTOY_BLK=%d" % blk],
